@@ -1,5 +1,6 @@
 from __future__ import annotations
 
+import re
 from typing import TYPE_CHECKING, Final, NewType
 
 from .tokenize import Token, TokenInfo
@@ -164,9 +165,10 @@ class Tokenizer:
                     # empty new line added by the tokenizer
                     continue
 
-            # update captured lines
-            if tok.start[0] not in lines:
-                lines[tok.start[0]] = tok.line if is_indented else tok.line[tok.start[1] :]
+            # update captured lines; a token that spans lines (a triple-quoted string) carries all of them
+            text = tok.line if is_indented else tok.line[tok.start[1] :]
+            for lineno, line in enumerate(re.findall(r"[^\n]*\n|[^\n]+", text), tok.start[0]):
+                lines.setdefault(lineno, line)
 
         string = "".join(lines.values())
         if is_indented:
